@@ -193,7 +193,13 @@ let commit_label (k : int) : string = if k >= q_base then Printf.sprintf "q%d" (
 let default_prog (t : tx) : string =
   "|cp" ^ (if t.tx_precommit_fails then "f" else "") ^ String.make (List.length t.tx_ops) '.' ^ "c"
 
-let parse_prog (prog : string) (ops : op list) : mctx * hitem list =
+(* third strengthening (Store/TxShared.v): the pseudo veto "@rawtx" says that the CALLER opened the bbolt transaction and
+   built the primary context around it with NewTxMutateContext (opener ByCaller); program letter 'x' .. ')' at the top
+   level of the function = a block executed with a second context NewTxMutateContext(ctx.Context(), ctx.Tx()) (TCtx) *)
+let raw_store = "@rawtx"
+let is_raw (t : tx) : bool = List.exists (fun ((s, _), _) -> string_of_name s = raw_store) t.tx_vetoes
+
+let parse_prog (prog : string) (ops : op list) : mctx * titem list =
   let n = String.length prog in
   let nc = ref 0 and np = ref 0 in
   let ops = ref ops in
@@ -211,22 +217,38 @@ let parse_prog (prog : string) (ops : op list) : mctx * hitem list =
     | _ -> ()
   done;
   let pos = ref (start + 1) in
-  let rec items (depth : int) : hitem list =
+  (* inside a nested call / a second-context block: up to the closing ')' *)
+  let rec items () : hitem list =
     if !pos >= n then []
     else begin
       let ch = prog.[!pos] in
       incr pos;
       match ch with
-      | ')' -> if depth > 0 then [] else items depth
+      | ')' -> []
       | '.' -> (match !ops with
-                | o :: r -> ops := r; let it = HOp o in it :: items depth
-                | [] -> items depth)
-      | 'c' | 'p' | 'f' | 'q' -> let it = reg ch in it :: items depth
-      | 'u' | 'b' -> let body = items (depth + 1) in let it = HNest ((ch = 'b'), body) in it :: items depth
-      | _ -> items depth
+                | o :: r -> ops := r; let it = HOp o in it :: items ()
+                | [] -> items ())
+      | 'c' | 'p' | 'f' | 'q' -> let it = reg ch in it :: items ()
+      | 'u' | 'b' -> let body = items () in let it = HNest ((ch = 'b'), body) in it :: items ()
+      | 'x' -> failwith ("hook program " ^ prog ^ ": a second context inside a nested call / another second context is not modelled")
+      | _ -> items ()
     end in
-  let body = items 0 in
-  let body = body @ List.map (fun o -> HOp o) !ops in
+  let rec top () : titem list =
+    if !pos >= n then []
+    else begin
+      let ch = prog.[!pos] in
+      incr pos;
+      match ch with
+      | '.' -> (match !ops with
+                | o :: r -> ops := r; let it = TOwn (HOp o) in it :: top ()
+                | [] -> top ())
+      | 'c' | 'p' | 'f' | 'q' -> let it = TOwn (reg ch) in it :: top ()
+      | 'u' | 'b' -> let body = items () in let it = TOwn (HNest ((ch = 'b'), body)) in it :: top ()
+      | 'x' -> let body = items () in let it = TCtx body in it :: top ()
+      | _ -> top ()
+    end in
+  let body = top () in
+  let body = body @ List.map (fun o -> TOwn (HOp o)) !ops in
   ({ mc_pre = !pre; mc_commit = !com }, body)
 
 let count_of (k : nat) (l : nat list) : int = List.length (List.filter (fun x -> x = k) l)
@@ -259,23 +281,36 @@ let () =
         let prog = if !txi < Array.length progs then progs.(!txi) else default_prog t in
         incr txi;
         let (ctx0, body) = parse_prog prog t.tx_ops in
-        (* Db.Update / Db.Batch under the program (Store/TxHooks.v; Batch = Update since the tx-complete fix) *)
-        let o = db_update sch fuel !st t.tx_sys t.tx_vetoes ctx0 body in
+        let opn = if is_raw t then ByCaller else ByDb in
+        (* the transaction under its program (Store/TxShared.v shared_update: Db.Update / Db.Batch - the same since the
+           tx-complete fix - or a caller-managed transaction; secondary contexts) *)
+        let o = shared_update sch fuel !st t.tx_sys t.tx_vetoes opn ctx0 body in
+        let same (a : hook_obs) (b : hook_obs) : bool =
+          a.ho_results = b.ho_results && a.ho_committed = b.ho_committed && a.ho_events = b.ho_events
+          && a.ho_commit_runs = b.ho_commit_runs && a.ho_pre_runs = b.ho_pre_runs && a.ho_tc = b.ho_tc in
         (* cross-checks: the program's transaction is the case line's transaction; the instrumented and the
-           plain machine deliver the same results, commit flag, state-relevant events (db_update_refines_run_tx_v,
-           run_tx_v_events); the program without its nested calls is observed identically (nested_join_transparent) *)
-        let ht = hook_tx t.tx_sys t.tx_vetoes ctx0 body in
+           plain machine deliver the same results, commit flag, state-relevant events (shared_update_refines_run_tx_v,
+           run_tx_v_events); a program of Store/TxHooks.v is observed as by db_update (shared_update_extends_db_update);
+           the program without its nested calls is observed identically (nested_join_transparent) *)
+        let ht = shared_tx opn t.tx_sys t.tx_vetoes ctx0 body in
         if ht.tx_ops <> t.tx_ops || ht.tx_precommit_fails <> t.tx_precommit_fails then
           failwith ("hook program " ^ prog ^ " does not describe its transaction");
         let v = run_tx_v sch fuel !st t in
         if v.to_results <> o.ho_results || v.to_committed <> o.ho_committed || v.to_events <> o.ho_events then
-          failwith "db_update disagrees with run_tx_v";
+          failwith "shared_update disagrees with run_tx_v";
         let (((rs0, c0), _), evs0) = run_tx sch fuel !st t in
         if rs0 <> o.ho_results || c0 <> o.ho_committed || evs0 <> List.map (fun se -> se.se_ev) o.ho_events then
-          failwith "db_update disagrees with run_tx";
-        let o' = db_update sch fuel !st t.tx_sys t.tx_vetoes ctx0 (flatten body) in
-        if o'.ho_results <> o.ho_results || o'.ho_committed <> o.ho_committed || o'.ho_commit_runs <> o.ho_commit_runs
-           || o'.ho_pre_runs <> o.ho_pre_runs || o'.ho_tc <> o.ho_tc then
+          failwith "shared_update disagrees with run_tx";
+        let own = List.concat (List.map (function TOwn it -> [it] | TCtx _ -> []) body) in
+        if opn = ByDb && List.length own = List.length body then begin
+          let o2 = db_update sch fuel !st t.tx_sys t.tx_vetoes ctx0 own in
+          if not (same o o2) then failwith "shared_update disagrees with db_update";
+          if registered_commits ctx0 own <> shared_registered_commits opn ctx0 body then
+            failwith "registered commit actions differ between TxHooks.v and TxShared.v"
+        end;
+        let flat = List.concat (List.map (function TOwn it -> List.map (fun x -> TOwn x) (flatten [it])
+                                                    | TCtx b -> [TCtx (flatten b)]) body) in
+        if not (same o (shared_update sch fuel !st t.tx_sys t.tx_vetoes opn ctx0 flat)) then
           failwith "nested calls are not transparent";
         st := o.ho_state;
         Buffer.add_string buf "TX R";
@@ -289,9 +324,11 @@ let () =
         (* commit: every registration with its executions; rollback: only executions that must not be there (the
            pre-commit actions of a transaction whose function succeeded are not printed, see store_c08.go runTx) *)
         let body_failed = List.exists (fun r -> r <> None) o.ho_results in
-        let ca = if o.ho_committed then List.sort_uniq compare (registered_commits ctx0 body @ o.ho_commit_runs)
+        let ca = if o.ho_committed then List.sort_uniq compare (shared_registered_commits opn ctx0 body @ o.ho_commit_runs)
                  else List.sort_uniq compare o.ho_commit_runs in
-        let pa = if o.ho_committed then List.sort_uniq compare (List.map fst (registered_pres ctx0 body) @ o.ho_pre_runs)
+        (* a committed transaction prints every registered pre-commit action: those somebody runs (live_pres) and those
+           on contexts built around an existing transaction (dead_pres: 0 executions) *)
+        let pa = if o.ho_committed then List.sort_uniq compare (List.map fst (live_pres opn ctx0 body) @ List.map fst (dead_pres opn ctx0 body) @ o.ho_pre_runs)
                  else if body_failed then List.sort_uniq compare o.ho_pre_runs else [] in
         let ca_toks = List.sort compare (List.map (fun k ->
           Printf.sprintf "CA:%s:%d" (commit_label (int_of_nat k)) (count_of k o.ho_commit_runs)) ca) in
